@@ -242,4 +242,117 @@ for a single run, the merging stream otherwise -/
 def outputBlocks (cap nruns nout : Nat) : List Nat :=
   if nruns = 0 then [] else if nruns = 1 then readSingleBlocks cap nout nout else streamBlocks cap nout
 
+/-! ### the merge passes at byte level -/
+
+/-- all records an entry delivers until it is exhausted: `Current()`, `Increment()`, … ; `none` =
+undefined behaviour (stepping over `buffer_end_`) or fuel exhausted -/
+def drainEntry (E cap : Nat) : Nat → Option ByteEntry → Option (List (List Nat))
+  | _, none => some []
+  | 0, some _ => none
+  | f + 1, some e =>
+    match e.increment E cap with
+    | .error _ => none
+    | .ok r => (drainEntry E cap f r).map (e.current E :: ·)
+
+/-- a run of the data file as the merge sees it: the records a `MergeQueue::Entry` with a
+`per_buffer` of `cap` bytes delivers for the byte slice of the run -/
+def decodeRun (E cap : Nat) (bytes : Buf) : Option (List (List Nat)) :=
+  drainEntry E cap (bytes.length / E + 1) (ByteEntry.read cap bytes)
+
+/-- all or nothing -/
+def optAll {β : Type} : List (Option β) → Option (List β)
+  | [] => some []
+  | none :: _ => none
+  | some x :: rest => (optAll rest).map (x :: ·)
+
+/-- The output of a merge pass at byte level: the merged records are written through the pass
+chain's `Stream` (blocks of `B` bytes, stale `pad` beyond the valid part of the last block) and
+`WriteAndRecycle` into the data file, each merged run is logged with `len · E` bytes, and the next
+reader gets each run as the byte slice at `(TotalOffset(), NextSize())`, decoded by a queue entry
+with a buffer of `cap` bytes.  (`decodeRun_eq`: the records do not depend on `cap` as long as it is
+a positive multiple of `E`, which every `per_buffer` is: `perBuffer_valid`.) -/
+def storeRunsBytes (E cap B : Nat) (pad : Buf) (lens : List Nat) (runs : List (List (List Nat))) :
+    Option (List (List (List Nat))) :=
+  let bytes := (runs.map bytesOf).flatten
+  let file := writeAndRecycle [] (streamToBlocks B pad (bytes.length + 1) bytes)
+  match readRunsBytes file (lens.map (· * E)) with
+  | none => none
+  | some rs => optAll (rs.map (decodeRun E cap))
+
+/-- `codePass` with the byte-level file -/
+def codePassBytes (lt : List Nat → List Nat → Bool) (comb : List Nat → List Nat → Option (List Nat))
+    (pick : Pick (List Nat)) (cfg : Cfg) (pad : Buf) (readingMem : Nat) (runs : List (List (List Nat))) :
+    Except PlanErr (List (List (List Nat))) :=
+  match runs with
+  | [] => .ok []
+  | [r] => .ok [r]
+  | _ =>
+    match codeGroups cfg.entrySize cfg.bufferSize readingMem false runs.length runs with
+    | .error e => .error e
+    | .ok gs =>
+      match storeRunsBytes cfg.entrySize cfg.bufferSize cfg.bufferSize pad
+          (gs.map (mergeWritten lt comb pick)) (gs.map (mergeGroup lt comb pick)) with
+      | none => .error .offsets
+      | some rs => .ok rs
+
+/-- `codeMergeLoop` with the byte-level file in every pass -/
+def codeMergeLoopBytes (lt : List Nat → List Nat → Bool) (comb : List Nat → List Nat → Option (List Nat))
+    (pick : Pick (List Nat)) (cfg : Cfg) (pad : Buf) (lazyMem : Nat) :
+    Nat → List (List (List Nat)) → Nat → Except PlanErr (List (List (List Nat)) × Nat)
+  | fuel, runs, n =>
+    let lazyArity := max 1 (lazyMem / cfg.bufferSize)
+    let size := dataSize cfg runs
+    if runs.length ≤ lazyArity ∨ size ≤ lazyMem then .ok (runs, n)
+    else
+      match fuel with
+      | 0 => .error .fuel
+      | fuel + 1 =>
+        let reading0 := cfg.totalMemory - 2 * cfg.bufferSize
+        let reading := if size < reading0 then size else reading0
+        match codePassBytes lt comb pick cfg pad reading runs with
+        | .error e => .error e
+        | .ok runs' => codeMergeLoopBytes lt comb pick cfg pad lazyMem fuel runs' (n + 1)
+
+/-- `Sort::Merge` with the byte-level file in every pass -/
+def codeMergeBytes (lt : List Nat → List Nat → Bool) (comb : List Nat → List Nat → Option (List Nat))
+    (pick : Pick (List Nat)) (cfg : Cfg) (pad : Buf) (lazyMem : Nat) (runs : List (List (List Nat))) :
+    Except PlanErr (MergeResult (List Nat)) :=
+  if runs.length ≤ 1 then .ok ⟨runs, 0, 0⟩
+  else
+    match codeMergeLoopBytes lt comb pick cfg pad lazyMem runs.length runs 0 with
+    | .error e => .error e
+    | .ok (runs', n) =>
+      if runs'.length ≤ 1 then .ok ⟨runs', n, 0⟩
+      else .ok ⟨runs', n, min (dataSize cfg runs') (runs'.length * cfg.bufferSize)⟩
+
+/-- The whole sort at byte level: byte blocks sorted in place and spilled (`afterBlockSorterBytes`),
+every merge pass through the byte file (`codeMergeBytes`), final lazy merge; output as bytes. -/
+def codeSortBytesPasses (lt : List Nat → List Nat → Bool) (comb : List Nat → List Nat → Option (List Nat))
+    (pick : Pick (List Nat)) (cfg : Cfg) (pad : Buf) (lazyMem : Nat) (blocks : List Block) :
+    Except PlanErr (Buf × Nat × Nat) :=
+  match afterBlockSorterBytes cfg.entrySize lt blocks with
+  | none => .error .offsets
+  | some runs =>
+    match codeMergeBytes lt comb pick cfg pad lazyMem runs with
+    | .error e => .error e
+    | .ok m =>
+      match codeFinal lt comb pick cfg lazyMem m.runs with
+      | .error e => .error e
+      | .ok out => .ok (bytesOf out, m.passes, m.ret)
+
+/-! ### HolePunch -/
+
+/-- `HolePunch(fd, offset, size)`: the bytes in `[offset, offset + size)` read as zero afterwards -/
+def holePunch (file : Buf) (off len : Nat) : Buf :=
+  file.take off ++ List.replicate (min len (file.length - off)) 0 ++ file.drop (off + len)
+
+/-- `Entry::Read` with its hole punch: the bytes read and the file afterwards.  `page = none`: the
+code (`HolePunch(fd, offset_, amount)`); `page = some p`: seeded/C16-8 (punch from the page boundary
+below `offset_`, only for reads of at least a page). -/
+def readPunch (page : Option Nat) (file : Buf) (off amount : Nat) : Buf × Buf :=
+  (readAt file (off, amount),
+    match page with
+    | none => holePunch file off amount
+    | some p => if p ≤ amount then holePunch file (off / p * p) amount else file)
+
 end KV.Sort
